@@ -26,6 +26,7 @@ ASSUMPTIONS = [
 KNOWN_PFV2 = "pfv-list-two-component"
 KNOWN_WS = "generic-literal-whitespace"
 KNOWN_NOTIN = "notin-union-notin-any"
+KNOWN_EMPTY = "empty-literal-misread"
 
 
 def two_notin_alternatives(t: str) -> bool:
@@ -35,6 +36,7 @@ def two_notin_alternatives(t: str) -> bool:
     return any(names.count(n) > 1 for n in names) and " or " in t
 
 CORPUS = [
+    'os_name != ""', "sys_platform == ''",      # class empty-literal-misread
     '"5.1" not in platform_release or "10" not in platform_release',
     'python_version >= "3.8"', 'python_full_version ~= "3.8.1"', 'python_full_version == "3.8"', 'python_version in "3.8 3.9"',
     'python_version not in "3.8, 3.9"', '"tegra" in platform_version', "'arm' not in platform_machine", 'os.name == "nt"',
@@ -122,7 +124,7 @@ def check_texts(ctx: core.Ctx, texts: list[str], stream: str, envs: list[dict[st
             in_domain = in_c06_domain(t)
             if pm is None:
                 if in_domain and perr is not None:
-                    ctx.violate(KNOWN_WS if ws_literal(t) else f"rejects:{t}", f"parse_marker({t!r}) raised {perr} but the reference accepts and evaluates it", {"marker": t})
+                    ctx.violate(KNOWN_EMPTY if empty_literal(t) else KNOWN_WS if ws_literal(t) else f"rejects:{t}", f"parse_marker({t!r}) raised {perr} but the reference accepts and evaluates it", {"marker": t})
                 continue
             if not in_domain:
                 ctx.count("oracle:outside-domain")
@@ -135,7 +137,7 @@ def check_texts(ctx: core.Ctx, texts: list[str], stream: str, envs: list[dict[st
                     ctx.violate(f"validate-raises:{t}", f"parse_marker({t!r}).validate raised {x} on {envs[k]}", {"marker": t, "env": envs[k]})
                     break
                 if (x == "1") != tv:
-                    key = (KNOWN_PFV2 if pfv2_list(t) else KNOWN_WS if ws_literal(t) else
+                    key = (KNOWN_EMPTY if empty_literal(t) else KNOWN_PFV2 if pfv2_list(t) else KNOWN_WS if ws_literal(t) else
                            KNOWN_NOTIN if two_notin_alternatives(t) else f"eval:{t}")
                     ctx.violate(key, f"{t!r} on {brief(envs[k])}: poetry-core {x == '1'}, reference {tv}",
                                 {"marker": t, "env": envs[k], **({"history": history} if history else {})})
@@ -169,6 +171,13 @@ def ws_literal(t: str) -> bool:
     return False
 
 
+def empty_literal(t: str) -> bool:
+    """an item whose literal is the empty string: SingleMarker glues operator and value and a regex splits the operator text
+    again (`os_name != ""` is read as `os_name == "!="`)"""
+    import re
+    return bool(re.search(r"""(==|!=|<=|>=|~=|<|>|\bin)\s*(""|'')""", t) or re.search(r"""(""|'')\s*(not\s+in|in)\b""", t))
+
+
 def pfv2_list(t: str) -> bool:
     import re
     for m in re.finditer(r"python_full_version\s+(?:not\s+)?in\s+(\"[^\"]*\"|'[^']*')", t):
@@ -185,8 +194,8 @@ def in_c06_domain(t: str) -> bool:
     rev = re.findall(r"""("[^"]*"|'[^']*')\s*(===|==|!=|<=|>=|~=|<|>|not in|in)\s*([A-Za-z_.]+)""", t)
     if len(items) + len(rev) != G.count_leaves(t):
         return False        # e.g. `not  in` with several blanks: poetry-core's grammar has the literal "not in" (C19's subject)
-    if any(lit[1:-1] == "" for _, _, lit in items) or any(lit[1:-1] == "" for lit, _, _ in rev):
-        return False        # empty literals are not values of any variable
+    # (empty literals stay in the domain: `os_name != ""` is a well-formed marker the reference evaluates — poetry-core
+    #  mis-reads it, class empty-literal-misread)
     for _, op, lit in items:
         if " ".join(op.split()) in ("in", "not in") and not re.fullmatch(r"[^ ,|]+([ ,|]+[^ ,|]+)*", lit[1:-1]):
             return False    # a list literal is a list of tokens: no leading/trailing/doubled separators producing empty tokens
